@@ -822,7 +822,7 @@ class CompiledRouterNode:
                 # group-escape sequence. So we add an extra backslash to
                 # trick the parser into doing the right thing.
                 escaped_segment = re.sub(
-                    r'[\.\(\)\[\]\?\$\*\+\^\|]', r'\\\g<0>', raw_segment
+                    r'[\.\(\)\[\]\?\$\*\+\^\|\\]', r'\\\g<0>', raw_segment
                 )
 
                 pattern_text = _FIELD_PATTERN.sub(r'(?P<\2>.+)', escaped_segment)
@@ -1020,7 +1020,9 @@ class _CxIfPathSegmentLiteral(_CxParent):
         self._literal = literal
 
     def src(self, indentation: int) -> str:
-        template = "{0}if path[{1}] == '{2}':\n{3}"
+        # NOTE: the literal is rendered with repr(), so that a quote or a
+        #   backslash in it cannot break the generated source.
+        template = '{0}if path[{1}] == {2!r}:\n{3}'
         return template.format(
             _TAB_STR * indentation,
             self._segment_idx,
